@@ -409,6 +409,9 @@ def driver(cinco, desc, seed, n_traces, length):
                                         S(rnd_text(rng, 32, 32, edge=False)), S(""), {"t": "none"}])
                     elif key == "hash":
                         v = S(rnd_text(rng, 6, 10, edge=False))
+                        if rng.random() < 0.25:
+                            # an imported, unsalted hash (a ready-made DigestValue with salt b"")
+                            v = {"t": "digest", "alg": "md5", "pt": v, "salt": "empty"}
                     elif key == "blob":
                         v = rng.choice([B(rng.randint(0, 40), rng), B(rng.randint(55, 120), rng), {"t": "none"}])
                     elif key == "bl":
